@@ -20,7 +20,7 @@ RULE = (
     "subclass (__bool__ False) and one falsy through __len__, an attribute plan (name in {k, name, uid, i}; values "
     "from a 3-value domain so several listed vertices match; some vertices lack the attribute; matching vertices "
     "may lie outside the universe) and a sought value that is equal but not identical to the stored one (big int "
-    "rebuilt at run time, float vs int, rebuilt str) or absent, or None (stored None must match, a vertex lacking the attribute must not).  Cases run with neighbor caching on or off, universes are optionally padded with 40 / 1000 isolated members, and every case is evaluated again on the same objects after a membership swap (one member out, one non-member in).  Oracle: the first vertex of bft / dft_recursive / "
+    "rebuilt at run time, float vs int, rebuilt str) or absent, or an object whose == accepts every value (then the first listed vertex HAVING the attribute is the match), or None (stored None must match, a vertex lacking the attribute must not).  Cases run with neighbor caching on or off, universes are optionally padded with 40 / 1000 isolated members, and every case is evaluated again on the same objects after a membership swap (one member out, one non-member in).  Oracle: the first vertex of bft / dft_recursive / "
     "dft_iterative (the library's own listing, FORWARD + defaults) with hasattr and ==, else None; the search "
     "must return that very object; cross-checked against the reference orders.  Non-trivial = >= 2 listed "
     "vertices match, or the expected match is falsy, or a matching vertex exists only outside the universe / "
@@ -51,11 +51,26 @@ def strategy(tier):
         st.integers(0, 3),
         st.lists(st.integers(0, 3), min_size=1, max_size=8),
         st.integers(0, 8),
-        st.integers(0, 4),
+        st.integers(0, 5),
     )
 
 
 BIG = 10 ** 20
+
+
+class _Anything:
+    """A sought value whose == accepts every stored value (like unittest.mock.ANY)."""
+
+    def __eq__(self, other):
+        return True
+
+    def __ne__(self, other):
+        return False
+
+    __hash__ = None
+
+    def __repr__(self):
+        return "<ANYTHING>"
 
 
 def check_case(case):
@@ -94,7 +109,9 @@ def _check_on(S, case, first):
         elif an == "name" and sel != 3:
             v.name = "n" + str(sel)
     s = case["sought"]
-    if mode == 4 and an in ("k", "name"):
+    if mode == 5:
+        sought = _Anything()                          # == to every value: the first vertex HAVING the attribute matches
+    elif mode == 4 and an in ("k", "name"):
         sought = None                                 # vertices LACKING the attribute must not match None
     elif an == "k":
         if mode == 0:
@@ -163,4 +180,6 @@ def _check_on(S, case, first):
     classes.add("caching-on" if t.get("cache") else "caching-off")
     if sought is None:
         classes.add("sought-None")
+    if mode == 5:
+        classes.add("sought-value-with-permissive-__eq__")
     return dict(nt=nt, classes=sorted(classes))
